@@ -21,8 +21,13 @@ import (
 	"testing"
 	"time"
 
+	"github.com/database64128/shadowsocks-go/conn"
+	"github.com/database64128/shadowsocks-go/httpproxy"
+	"github.com/database64128/shadowsocks-go/netio"
 	"github.com/database64128/shadowsocks-go/service"
+	"github.com/database64128/shadowsocks-go/socks5"
 	"github.com/database64128/shadowsocks-go/ss2022"
+	"github.com/database64128/shadowsocks-go/zerocopy"
 	"go.uber.org/zap"
 	"pgregory.net/rapid"
 
@@ -149,6 +154,9 @@ type svcEnv struct {
 	canary    net.Conn
 	canaryCtr uint64
 	lingering []net.Conn
+	udpCan    map[string]*udpCanary
+	failure   error
+	failed    bool // a canary already reported a violation: do not spend the Stop bound as well
 
 	ucc128 ss2022.UserCipherConfig
 	ucc256 ss2022.UserCipherConfig
@@ -393,19 +401,37 @@ func startService(bitmap bool) (*svcEnv, error) {
 	return env, nil
 }
 
-func (env *svcEnv) stop() {
+// stopBound bounds Manager.Run's return after cancellation. Every relay's Stop forces its sockets' deadlines into
+// the past; observed values are tens of milliseconds. The ss2022 NAT timeout in this configuration is 60 s, so a Stop
+// that waits for a session to idle out cannot hide below the bound either.
+const stopBound = 30 * time.Second
+
+// stop shuts the service down. A Stop that does not return is a violation of C06 (nobody is served any more and the
+// process cannot even be restarted cleanly), reported through t unless a canary already failed.
+func (env *svcEnv) stop(t interface{ Errorf(string, ...any) }) {
 	for _, c := range env.lingering {
 		c.Close()
 	}
 	if env.canary != nil {
 		env.canary.Close()
 	}
+	for _, uc := range env.udpCan {
+		uc.close()
+	}
 	if env.cancel != nil {
 		env.cancel()
-		// Stop may legitimately take long when UDP sessions are live (that is C12's subject); do not wait for it.
+		bound := stopBound
+		if env.failed {
+			bound = time.Second
+		}
+		start := time.Now()
 		select {
 		case <-env.done:
-		case <-time.After(3 * time.Second):
+			recSvc.Extra("last_stop_ms", time.Since(start).Milliseconds())
+		case <-time.After(bound):
+			if !env.failed && t != nil {
+				t.Errorf("SIG=C06/service-stop-did-not-return VERIF-VIOLATION Manager.Run had not returned %s after its context was cancelled", bound)
+			}
 		}
 	}
 	env.echoTCP.Close()
@@ -462,8 +488,25 @@ func echoOnce(c net.Conn, ctr *uint64, timeout time.Duration) error {
 	return nil
 }
 
-// canaryTick checks the long-lived tunnel; one reconnect is allowed per failure before it counts.
+// canaryTick is run after every hostile operation: the long-lived TCP tunnel and one UDP exchange through every UDP
+// listener (socks5 / none / ss2022-128 / ss2022-256 / direct, both batch modes), each with a bounded wait.
 func (env *svcEnv) canaryTick() error {
+	if env.failed { // already reported: the instance is dead for the rest of the process (keeps shrinking fast)
+		return env.failure
+	}
+	if err := env.canaryTunnel(); err != nil {
+		env.failed, env.failure = true, err
+		return err
+	}
+	if err := env.udpCanaries(); err != nil {
+		env.failed, env.failure = true, err
+		return err
+	}
+	return nil
+}
+
+// canaryTunnel checks the long-lived tunnel; one reconnect is allowed per failure before it counts.
+func (env *svcEnv) canaryTunnel() error {
 	proxy := fmt.Sprintf("127.0.0.1:%d", env.ports["s5/tcp"])
 	var first error
 	for attempt := 0; attempt < 2; attempt++ {
@@ -494,6 +537,216 @@ func (env *svcEnv) canaryTick() error {
 	return fmt.Errorf("canary dead: %v", first)
 }
 
+// ---- one UDP canary session per UDP listener
+
+type udpCanary struct {
+	key   string
+	kind  string // none | s5 | direct | ss
+	env   *svcEnv
+	conn  *net.UDPConn
+	info  zerocopy.UDPClientSessionInfo
+	sess  zerocopy.UDPClientSession
+	ctr   uint64
+	since time.Time
+}
+
+func (u *udpCanary) close() {
+	if u.conn != nil {
+		u.conn.Close()
+		u.conn = nil
+	}
+}
+
+// open (re)creates the canary's socket and, for ss2022, a fresh client session with the real client code.
+func (u *udpCanary) open() error {
+	u.close()
+	port := u.env.ports[u.key]
+	c, err := net.DialUDP("udp4", nil, &net.UDPAddr{IP: net.IPv4(127, 0, 0, 1), Port: port})
+	if err != nil {
+		return err
+	}
+	u.conn = c
+	u.since = time.Now()
+	if u.kind == "ss" {
+		var cc *ss2022.ClientCipherConfig
+		if strings.HasPrefix(u.key, "ss256") {
+			cc, err = ss2022.NewClientCipherConfig(key32(77), [][]byte{key32(1)}, true)
+		} else {
+			cc, err = ss2022.NewClientCipherConfig(key16(1), nil, true)
+		}
+		if err != nil {
+			return err
+		}
+		srv := conn.AddrFromIPAndPort(netip.MustParseAddr("127.0.0.1"), uint16(port))
+		cl := ss2022.NewUDPClient("canary", "ip", srv, 1500, conn.DefaultUDPClientListenConfig, 0, cc, ss2022.NoPadding)
+		u.info, u.sess, err = cl.NewSession(context.Background())
+		if err != nil {
+			return err
+		}
+	}
+	return nil
+}
+
+// exchange sends one echo request through the listener and waits for its reply, resending every 250 ms (UDP may drop,
+// in particular right after a flood) until the bound expires.
+func (u *udpCanary) exchange(bound time.Duration) error {
+	if u.conn == nil {
+		if err := u.open(); err != nil {
+			return err
+		}
+	}
+	u.ctr++
+	payload := []byte(fmt.Sprintf("udp-canary %s #%d", u.key, u.ctr))
+	echo := u.env.echoUDP.LocalAddr().(*net.UDPAddr).AddrPort()
+	target := socksAddrIP(echo.Addr(), echo.Port())
+	listener := netip.AddrPortFrom(netip.MustParseAddr("127.0.0.1"), uint16(u.env.ports[u.key]))
+	deadline := time.Now().Add(bound)
+	rbuf := make([]byte, 65536)
+	for time.Now().Before(deadline) {
+		var pkt []byte
+		switch u.kind {
+		case "none":
+			pkt = cat(target, payload)
+		case "s5":
+			pkt = cat([]byte{0, 0, 0}, target, payload)
+		case "direct":
+			pkt = payload
+		default:
+			hr := u.info.PackerHeadroom
+			buf := make([]byte, hr.Front+len(payload)+hr.Rear)
+			copy(buf[hr.Front:], payload)
+			_, ps, pl, err := u.sess.Packer.PackInPlace(context.Background(), buf, conn.AddrFromIPPort(echo), hr.Front, len(payload))
+			if err != nil {
+				return fmt.Errorf("canary packer: %w", err)
+			}
+			pkt = buf[ps : ps+pl]
+		}
+		_, _ = u.conn.Write(pkt)
+		wait := time.Now().Add(250 * time.Millisecond)
+		for {
+			_ = u.conn.SetReadDeadline(wait)
+			n, err := u.conn.Read(rbuf)
+			if err != nil {
+				break
+			}
+			got := rbuf[:n]
+			if u.kind == "ss" {
+				_, s, l, err := u.sess.Unpacker.UnpackInPlace(rbuf, listener, 0, n)
+				if err != nil {
+					continue
+				}
+				got = rbuf[s : s+l]
+			}
+			if len(got) >= len(payload) && string(got[len(got)-len(payload):]) == string(payload) {
+				return nil
+			}
+		}
+	}
+	return fmt.Errorf("no echo through %s within %s", u.key, bound)
+}
+
+// udpCanaryBound: a healthy exchange takes a fraction of a millisecond. One miss is retried with a fresh socket and
+// (ss2022) a fresh client session before it counts.
+const udpCanaryBound = 12 * time.Second
+
+func (env *svcEnv) udpCanaries() error {
+	if env.udpCan == nil {
+		env.udpCan = map[string]*udpCanary{}
+		for _, k := range udpListeners {
+			kind := strings.SplitN(k, "/", 2)[0]
+			if strings.HasPrefix(kind, "ss") {
+				kind = "ss"
+			}
+			env.udpCan[k] = &udpCanary{key: k, kind: kind, env: env}
+		}
+	}
+	for _, k := range udpListeners {
+		u := env.udpCan[k]
+		err := u.exchange(udpCanaryBound)
+		if err != nil {
+			if oerr := u.open(); oerr != nil {
+				return oerr
+			}
+			if err2 := u.exchange(udpCanaryBound); err2 != nil {
+				return fmt.Errorf("listener %s stalled: %v; with a fresh socket and session: %v", k, err, err2)
+			}
+		}
+	}
+	return nil
+}
+
+// tcpListenerCanaries opens a fresh session through every TCP listener kind with the repo's own client code.
+func (env *svcEnv) tcpListenerCanaries() error {
+	echoAP := env.echoTCP.Addr().(*net.TCPAddr).AddrPort()
+	echo := conn.AddrFromIPPort(echoAP)
+	var ctr uint64 = 1 << 40
+	dial := func(k string) (*net.TCPConn, error) {
+		c, err := net.DialTimeout("tcp4", fmt.Sprintf("127.0.0.1:%d", env.ports[k]), 10*time.Second)
+		if err != nil {
+			return nil, err
+		}
+		_ = c.SetDeadline(time.Now().Add(10 * time.Second))
+		return c.(*net.TCPConn), nil
+	}
+	for _, k := range tcpListeners {
+		c, err := dial(k)
+		if err != nil {
+			return fmt.Errorf("%s: %w", k, err)
+		}
+		var tun netio.Conn = c
+		switch strings.SplitN(k, "/", 2)[0] {
+		case "s5":
+			err = socks5.ClientConnect(c, echo)
+		case "s5auth":
+			err = socks5.ClientConnectUsernamePassword(c, socks5.UserInfo{Username: "alice", Password: "secret"}.AppendAuthMsg(nil), echo)
+		case "http":
+			tun, err = httpproxy.ClientConnect(c, echo, "")
+		case "httpauth":
+			tun, err = httpproxy.ClientConnect(c, echo, "\r\nProxy-Authorization: Basic "+b64([]byte("alice:secret")))
+		case "none":
+			_, err = c.Write(socksAddrIP(echoAP.Addr(), echoAP.Port()))
+		case "ss128", "ss256":
+			var cc *ss2022.ClientCipherConfig
+			if k == "ss256/tcp" {
+				cc, err = ss2022.NewClientCipherConfig(key32(77), [][]byte{key32(1)}, false)
+			} else {
+				cc, err = ss2022.NewClientCipherConfig(key16(1), nil, false)
+			}
+			if err == nil {
+				inner := &fixedConnClient{c: c}
+				tun, err = (&ss2022.StreamClientConfig{Name: "canary", InnerClient: inner, CipherConfig: cc}).NewStreamClient().DialStream(context.Background(), echo, nil)
+			}
+		case "ssfb":
+			// unauthenticated bytes are forwarded to the fallback address (the echo peer) as they are
+		case "direct":
+		}
+		if err == nil {
+			err = echoOnce(tun, &ctr, 10*time.Second)
+		}
+		c.Close()
+		if err != nil {
+			return fmt.Errorf("fresh session through %s: %w", k, err)
+		}
+	}
+	return nil
+}
+
+// fixedConnClient hands out one already established connection (and writes the initial payload to it).
+type fixedConnClient struct{ c netio.Conn }
+
+func (f *fixedConnClient) NewStreamDialer() (netio.StreamDialer, netio.StreamDialerInfo) {
+	return f, netio.StreamDialerInfo{Name: "fixed"}
+}
+
+func (f *fixedConnClient) DialStream(ctx context.Context, addr conn.Addr, payload []byte) (netio.Conn, error) {
+	if len(payload) > 0 {
+		if _, err := f.c.Write(payload); err != nil {
+			return nil, err
+		}
+	}
+	return f.c, nil
+}
+
 // canaryFull also opens fresh sessions through other listeners, TCP and UDP.
 func (env *svcEnv) canaryFull() error {
 	if err := env.canaryTick(); err != nil {
@@ -520,28 +773,10 @@ func (env *svcEnv) canaryFull() error {
 	if err != nil {
 		return fmt.Errorf("direct server echo: %w", err)
 	}
-	// UDP through the none server in both batch modes (paced: UDP may drop under load)
-	for _, k := range []string{"none/udp", "none/udpmm"} {
-		u, err := net.DialUDP("udp4", nil, &net.UDPAddr{IP: net.IPv4(127, 0, 0, 1), Port: env.ports[k]})
-		if err != nil {
-			return err
-		}
-		target := socksAddrIP(netip.MustParseAddr("127.0.0.1"), uint16(env.echoUDP.LocalAddr().(*net.UDPAddr).Port))
-		ok := false
-		buf := make([]byte, 2048)
-		for try := 0; try < 5 && !ok; try++ {
-			msg := cat(target, []byte(fmt.Sprintf("udp-canary-%d", try)))
-			_, _ = u.Write(msg)
-			_ = u.SetReadDeadline(time.Now().Add(2 * time.Second))
-			n, err := u.Read(buf)
-			if err == nil && n == len(msg) && string(buf[len(target):n]) == string(msg[len(target):]) {
-				ok = true
-			}
-		}
-		u.Close()
-		if !ok {
-			return fmt.Errorf("UDP canary through %s got no echo in 5 paced attempts", k)
-		}
+	// a fresh session through every TCP listener kind
+	if err := env.tcpListenerCanaries(); err != nil {
+		env.failed, env.failure = true, err
+		return err
 	}
 	return nil
 }
@@ -936,9 +1171,21 @@ func genOp(rt *rapid.T) svcOp {
 				}
 			case "ss128", "ss256":
 				op.Build = "ss-udp"
-				if wellFormed {
+				if wellFormed || rapid.Bool().Draw(rt, "ssWellFormed") {
 					op.Sel = ssFixTS
-					d = dgram(rapid.Uint64Range(0, 3).Draw(rt, "sid"), rapid.Uint64Range(0, 300).Draw(rt, "pid"), cat(make([]byte, 9), []byte{0, 0}, genSvcAddr(rt), []byte("x")))[2:]
+					// session ids: a few live ones and extremes; packet ids: small, 2^k, edges of the 64-bit space (consecutive
+					// datagrams of the operation then jump by arbitrary amounts within a session)
+					sid := rapid.SampledFrom(append([]uint64{0, 1, 2, 3, 2, 3}, extremeIDs...)).Draw(rt, "sid")
+					var pid uint64
+					switch rapid.IntRange(0, 2).Draw(rt, "pidKind") {
+					case 0:
+						pid = rapid.Uint64Range(0, 300).Draw(rt, "pid")
+					case 1:
+						pid = rapid.SampledFrom(extremeIDs).Draw(rt, "pidX")
+					default:
+						pid = uint64(1)<<rapid.IntRange(0, 63).Draw(rt, "pidPow") + rapid.Uint64Range(0, 2).Draw(rt, "pidOff") - 1
+					}
+					d = dgram(sid, pid, cat(make([]byte, 9), []byte{0, 0}, genSvcAddr(rt), []byte("x")))[2:]
 				} else {
 					j, s := pick(rt, p.ssU, "seed")
 					op.Sel = p.ssUSel[j]
@@ -1047,6 +1294,13 @@ func liveService(t failer, bitmap bool) *svcEnv {
 	return nil
 }
 
+func canarySig(err error) string {
+	if err != nil && strings.Contains(err.Error(), "stalled") {
+		return "C06/service-listener-stalled"
+	}
+	return "C06/service-canary"
+}
+
 func journalPath() string {
 	w := os.Getenv("VERIF_WORK")
 	if w == "" {
@@ -1084,7 +1338,7 @@ func executePlan(t failer, env *svcEnv, plan svcPlan) {
 		recSvc.Case(fmt.Sprintf("%s/%s/%s/%s/%s", op.Kind, op.Listener, op.Build, op.Close, op.Note), nontrivial, labels...)
 		if err := env.canaryTick(); err != nil {
 			b, _ := json.Marshal(plan.Ops[:i+1])
-			t.Fatalf("SIG=C06/service-canary VERIF-VIOLATION after operation %d (%s on %s): %v\nplan so far: %s", i, op.Kind, op.Listener, err, b)
+			t.Fatalf("SIG=%s VERIF-VIOLATION after operation %d (%s on %s): %v\nplan so far: %s", canarySig(err), i, op.Kind, op.Listener, err, b)
 		}
 	}
 	for _, c := range env.lingering {
@@ -1093,7 +1347,7 @@ func executePlan(t failer, env *svcEnv, plan svcPlan) {
 	env.lingering = nil
 	if err := env.canaryFull(); err != nil {
 		b, _ := json.Marshal(plan)
-		t.Fatalf("SIG=C06/service-canary VERIF-VIOLATION after the batch: %v\nplan: %s", err, b)
+		t.Fatalf("SIG=%s VERIF-VIOLATION after the batch: %v\nplan: %s", canarySig(err), err, b)
 	}
 }
 
@@ -1114,7 +1368,7 @@ func TestServiceHostile(t *testing.T) {
 	t.Cleanup(func() {
 		svcMu.Lock()
 		if svcLive != nil {
-			svcLive.stop()
+			svcLive.stop(t)
 			svcLive = nil
 		}
 		svcMu.Unlock()
@@ -1122,7 +1376,7 @@ func TestServiceHostile(t *testing.T) {
 	rapid.Check(t, func(rt *rapid.T) {
 		env := liveService(rt, bitmap)
 		if err := env.canaryFull(); err != nil {
-			rt.Fatalf("SIG=C06/service-canary VERIF-VIOLATION before the batch: %v", err)
+			rt.Fatalf("SIG=%s VERIF-VIOLATION before the batch: %v", canarySig(err), err)
 		}
 		plan := svcPlan{Bitmap: bitmap}
 		n := rapid.IntRange(20, 20).Draw(rt, "nops")
@@ -1154,7 +1408,7 @@ func TestReplayService(t *testing.T) {
 	if err != nil {
 		t.Fatalf("harness: %v", err)
 	}
-	defer env.stop()
+	defer env.stop(t)
 	if err := env.canaryFull(); err != nil {
 		t.Fatalf("SIG=C06/service-canary VERIF-VIOLATION before the plan: %v", err)
 	}
@@ -1170,7 +1424,7 @@ func TestServiceFlood(t *testing.T) {
 	if err != nil {
 		t.Fatalf("harness: %v", err)
 	}
-	defer env.stop()
+	defer env.stop(t)
 	if err := env.canaryFull(); err != nil {
 		t.Fatalf("SIG=C06/service-canary VERIF-VIOLATION before the floods: %v", err)
 	}
@@ -1196,6 +1450,35 @@ func TestServiceFlood(t *testing.T) {
 				}
 			}
 			plan.Ops = append(plan.Ops, op)
+		}
+	}
+	executePlan(t, env, plan)
+}
+
+// TestServiceExtremeIDs is the deterministic service-level form of "authenticated but extreme" ss2022 UDP traffic:
+// through every ss2022 UDP listener, sessions whose packet ids sit at the edges of the 64-bit space and of the replay
+// window's block arithmetic (and jump there and back), plus extreme session ids; every listener's canary after each.
+// One receive goroutine per listener unpacks under the session-table lock: a packet that makes it spin stalls the
+// listener for every user, which the per-listener UDP canary reports as C06/service-listener-stalled.
+func TestServiceExtremeIDs(t *testing.T) {
+	env, err := startService(!ev.IsKnown(prop, sigRouterPort0))
+	if err != nil {
+		t.Fatalf("harness: %v", err)
+	}
+	defer env.stop(t)
+	if err := env.canaryFull(); err != nil {
+		t.Fatalf("SIG=%s VERIF-VIOLATION before the plan: %v", canarySig(err), err)
+	}
+	plan := svcPlan{Bitmap: env.bitmap}
+	target := socksAddrIP(netip.MustParseAddr("127.0.0.1"), uint16(env.echoUDP.LocalAddr().(*net.UDPAddr).Port))
+	body := cat(make([]byte, 9), []byte{0, 0}, target, []byte("x"))
+	h := func(sid, pid uint64) string { return hex.EncodeToString(dgram(sid, pid, body)[2:]) }
+	for li, l := range []string{"ss128/udp", "ss128/udpmm", "ss256/udp"} {
+		for i, id := range extremeIDs {
+			sid := uint64(1000*(li+1) + i)
+			plan.Ops = append(plan.Ops,
+				svcOp{Kind: "udp", Listener: l, Build: "ss-udp", Sel: ssFixTS, Data: []string{h(sid, 5), h(sid, id), h(sid, 6), h(sid, id+1), h(sid, id-1)}, Note: "pid"},
+				svcOp{Kind: "udp", Listener: l, Build: "ss-udp", Sel: ssFixTS, Data: []string{h(id, 0), h(id, 1<<40), h(id, 1<<40+id), h(id, 1<<40-id)}, Note: "sid"})
 		}
 	}
 	executePlan(t, env, plan)
